@@ -303,6 +303,9 @@ func (g *jgen) val(t reflect.Type, depth int) reflect.Value {
 		p := reflect.New(t.Elem())
 		p.Elem().Set(g.val(t.Elem(), depth+1))
 		v.Set(p)
+		if t.Elem().Kind() == reflect.Ptr {
+			g.feat("ptrptr")
+		}
 	case reflect.Interface:
 		switch h.Intn(9) {
 		case 0: // nil
@@ -413,13 +416,17 @@ func init() {
 		return i, o, strings.Join(ks, ",")
 	}
 	ops["json.collide"] = func(a []string) (string, string, string) {
-		type T struct {
-			A int `json:"dup"`
-			B int `json:"dup"`
-			C int
-		}
-		x, _ := json.Marshal(T{1, 2, 3})
-		y, _ := stdjson.Marshal(T{1, 2, 3})
+		t := reflect.StructOf([]reflect.StructField{
+			{Name: "A", Type: reflect.TypeOf(0), Tag: `json:"dup"`},
+			{Name: "B", Type: reflect.TypeOf(0), Tag: `json:"dup"`},
+			{Name: "C", Type: reflect.TypeOf(0)},
+		})
+		v := reflect.New(t).Elem()
+		v.Field(0).SetInt(1)
+		v.Field(1).SetInt(2)
+		v.Field(2).SetInt(3)
+		x, _ := json.Marshal(v.Interface())
+		y, _ := stdjson.Marshal(v.Interface())
 		return string(x), string(y), "jsonFieldNameCollision"
 	}
 	ops["json.encstr"] = func(a []string) (string, string, string) {
